@@ -54,6 +54,25 @@ thread_local! {
     static CURRENT: Cell<usize> = const { Cell::new(usize::MAX) };
     static PARKED: Cell<bool> = const { Cell::new(false) };
     static FOREIGN: RefCell<Vec<u32>> = const { RefCell::new(Vec::new()) };
+    static CANCEL_IN_FLIGHT: Cell<bool> = const { Cell::new(false) };
+    static CANCEL_NOW: Cell<bool> = const { Cell::new(false) };
+}
+
+/// Ask the executor to drop the current activity at its next `Pending` inside a delegated store
+/// call (i.e. while the call is in flight on a foreign thread). Cleared by `clear_cancel_requests`.
+pub fn request_cancel_in_flight() {
+    CANCEL_IN_FLIGHT.with(|c| c.set(true));
+}
+
+/// Ask the executor to drop the current activity as soon as this poll returns `Pending`.
+pub fn request_cancel_now() {
+    CANCEL_NOW.with(|c| c.set(true));
+}
+
+pub fn clear_cancel_requests() -> bool {
+    let a = CANCEL_IN_FLIGHT.with(|c| c.replace(false));
+    let b = CANCEL_NOW.with(|c| c.replace(false));
+    a || b
 }
 
 /// Called by harness-owned seams at the moment they return `Pending`.
@@ -124,6 +143,8 @@ pub struct Activity {
 pub enum Step {
     /// Activity `act` ran one seam-to-seam step.
     Ran { act: usize, finished: bool },
+    /// Activity `act` was dropped at a cancellation point requested by a seam.
+    Cancelled { act: usize },
     /// Nothing is runnable: either every activity finished or all live ones are parked.
     Quiescent,
 }
@@ -228,6 +249,10 @@ impl StepExec {
                     return Ok(Step::Ran { act: i, finished: true });
                 }
                 Poll::Pending => {
+                    if CANCEL_NOW.with(|c| c.replace(false)) || (foreign_depth(i) > 0 && CANCEL_IN_FLIGHT.with(|c| c.replace(false))) {
+                        act.fut = None; // dropped right where it is suspended
+                        return Ok(Step::Cancelled { act: i });
+                    }
                     // A raised ForeignGuard wins over a (possibly stale) seam park recorded earlier
                     // in the same poll, e.g. by the other branch of a `select!`.
                     let in_foreign_call = foreign_depth(i) > 0;
@@ -275,7 +300,7 @@ impl StepExec {
         while n < max_steps {
             match self.step().await? {
                 Step::Quiescent => break,
-                Step::Ran { .. } => n += 1,
+                Step::Ran { .. } | Step::Cancelled { .. } => n += 1,
             }
         }
         Ok(n)
